@@ -34,7 +34,7 @@ def gen_replacement(rng, els, P, mode=None):
             # a slightly relaxed copy: some atoms moved by 0.001-0.09 A (NOT the same coordinates: they are replaced)
             for j in rng.sample(range(len(rel)), rng.randint(1, len(rel))):
                 d = np.array([rng.gauss(0, 1) for _ in range(3)])
-                rpos[j] = list(np.array(rpos[j]) + d / np.linalg.norm(d) * 10 ** rng.uniform(-3, -1.05))
+                rpos[j] = list(np.array(rpos[j]) + d / np.linalg.norm(d) * 10 ** rng.uniform(-4.7, -1.05))
         if mode == "equal_subst" and rel:
             j = rng.randrange(len(rel))
             rel[j] = rng.choice([e for e in geom.ELEMENT_POOL[:8] if e != rel[j]])
@@ -59,10 +59,18 @@ def gen_replacement(rng, els, P, mode=None):
     rng.shuffle(order)
     rel = [rel[i] for i in order]
     rpos = [rpos[i] for i in order]
-    return {"elements": rel, "positions": rpos,
-            "charges": [round(rng.uniform(-1, 1), 4) for _ in rel] if rng.random() < 0.7 else None,
-            "groups": [rng.randint(0, 3) for _ in rel] if rng.random() < 0.5 else None,
-            "mode": mode}
+    out = {"elements": rel, "positions": rpos,
+           "charges": [round(rng.uniform(-1, 1), 4) for _ in rel] if rng.random() < 0.7 else None,
+           "groups": [rng.randint(0, 3) for _ in rel] if rng.random() < 0.5 else None,
+           "mode": mode}
+    if rel and rng.random() < 0.2:
+        # a pattern loaded from a file brings a box of its own (unrelated to the structure's cell)
+        s = rng.uniform(3.0, 9.0)
+        out["cell"] = [[s, 0.0, 0.0], [0.0, s * rng.uniform(0.8, 1.3), 0.0], [0.0, 0.0, s * rng.uniform(0.8, 1.3)]]
+    if rel and rng.random() < 0.2:
+        out["extra_atom_labels"] = ["_atom_site_x_note"]
+        out["extra_atom_fields"] = [["n%d" % i] for i in range(len(rel))]
+    return out
 
 
 def add_metadata(rng, spec):
@@ -177,6 +185,11 @@ def build_replacement(rep):
         kw["charges"] = list(rep["charges"])
     if rep.get("groups") is not None:
         kw["groups"] = list(rep["groups"])
+    if rep.get("cell") is not None:
+        kw["cell"] = np.array(rep["cell"], float)
+    if rep.get("extra_atom_labels"):
+        kw["extra_atom_labels"] = list(rep["extra_atom_labels"])
+        kw["extra_atom_fields"] = [list(r) for r in rep["extra_atom_fields"]]
     return Atoms(**kw)
 
 
